@@ -24,7 +24,8 @@ EXTENDS Naturals, Integers, Sequences, FiniteSets, TLC, Json
 CONSTANTS MaxNodes,
           SplitLevels,     \* values of files.split-level explored
           Templates,       \* subset of {"default", "title", "single"}
-          MaxRefs
+          MaxRefs,
+          RefKinds         \* subset of {"sec", "eq"}: references to labelled units / to the numbered equation every unit carries
 
 VARIABLES nodes, docfn, split, tmpl, refs, done
 vars == <<nodes, docfn, split, tmpl, refs, done>>
@@ -39,7 +40,9 @@ AddNode == /\ ~done /\ refs = <<>> /\ Len(nodes) < MaxNodes
                  /\ nodes' = Append(nodes, [lvl |-> l, lab |-> lab, fn |-> fn, title |-> t])
            /\ UNCHANGED <<docfn, split, tmpl, refs, done>>
 AddRef == /\ ~done /\ nodes # <<>> /\ Len(refs) < MaxRefs
-          /\ \E a \in 0..Len(nodes), b \in 1..Len(nodes) : nodes[b].lab /\ refs' = Append(refs, [from |-> a, to |-> b])
+          /\ \E a \in 0..Len(nodes), b \in 0..Len(nodes), k \in RefKinds :
+                /\ (k = "sec" => b > 0 /\ nodes[b].lab)
+                /\ refs' = Append(refs, [from |-> a, to |-> b, kind |-> k])
           /\ UNCHANGED <<nodes, docfn, split, tmpl, done>>
 Close == ~done /\ nodes # <<>> /\ done' = TRUE /\ UNCHANGED <<nodes, docfn, split, tmpl, refs>>
 Next == AddNode \/ AddRef \/ Close
@@ -96,6 +99,20 @@ Names == Assign(Owners, 1, {}, <<>>)
 (* ---------------- links ---------------- *)
 (* Renderable.url of unit b: its own file, or the file of the nearest file-owning ancestor plus its id *)
 Url(b) == IF Owns(b) THEN [file |-> Names[b], frag |-> FALSE, id |-> b] ELSE [file |-> Names[FileOf(b)], frag |-> TRUE, id |-> b]
+(* an equation never owns a file: the file of the unit it is in plus its id *)
+EqUrl(b) == [file |-> Names[FileOf(b)], frag |-> TRUE, id |-> b]
+Target(r) == IF r.kind = "sec" THEN Url(r.to) ELSE EqUrl(r.to)
+
+(* the number \ref shows: the path of sibling positions (section counters reset by their parent) *)
+RECURSIVE Num(_)
+SibPos(i) == Cardinality({j \in 1..i : Parent(j) = Parent(i)})
+Num(i) == IF i = 0 THEN <<>> ELSE Num(Parent(i)) \o <<SibPos(i)>>
+
+(* SectionUtils.links: previous / next among the units that own a file, in document order; up = the parent unit *)
+Pos(f) == CHOOSE k \in 1..Len(Owners) : Owners[k] = f
+Nav(f) == [prev |-> IF Pos(f) = 1 THEN <<>> ELSE Names[Owners[Pos(f) - 1]],
+           next |-> IF Pos(f) = Len(Owners) THEN <<>> ELSE Names[Owners[Pos(f) + 1]],
+           up   |-> IF f = 0 THEN <<>> ELSE Names[Parent(f)]]
 
 -----------------------------------------------------------------------------
 MachineIsRule == done => \A f \in 0..N : Owns(f) => Written(f) = Content(f)
@@ -104,11 +121,18 @@ EveryWordOnceInOneFile == done => \A i \in 0..N :
 UnitsAtOrAboveLevelOwnFile == done => \A i \in 1..N : (Lvl(i) <= EffSplit) <=> Owns(i)
 NamesDistinct == done => \A a, b \in 0..N : (Owns(a) /\ Owns(b) /\ a # b) => Names[a] # Names[b]
 (* every reference lands: the file of its url is produced and, for a fragment, the unit with that id is written there *)
+(* navigation is a walk through all files: following next from the first file visits every file once *)
+NavIsAChain == done => /\ Nav(0).prev = <<>>
+                       /\ \A k \in 1..(Len(Owners) - 1) : Nav(Owners[k]).next = Names[Owners[k + 1]] /\ Nav(Owners[k + 1]).prev = Names[Owners[k]]
+                       /\ \A f \in 1..N : Owns(f) => Owns(Parent(f))
 LinksLand == done => \A r \in 1..Len(refs) :
-    LET u == Url(refs[r].to) IN
+    LET u == Target(refs[r]) IN
     /\ \E f \in 0..N : Owns(f) /\ Names[f] = u.file /\ (u.frag => \E k \in 1..Len(Written(f)) : Written(f)[k] = B(u.id))
 
 Emit == done => PrintT(<<"BEH", ToJson([nodes |-> nodes, docfn |-> docfn, split |-> split, tmpl |-> tmpl, refs |-> refs,
-                                        files |-> [k \in 1..Len(Owners) |-> [node |-> Owners[k], name |-> Names[Owners[k]], content |-> Written(Owners[k])]],
-                                        urls |-> [r \in 1..Len(refs) |-> Url(refs[r].to)]])>>)
+                                        files |-> [k \in 1..Len(Owners) |-> [node |-> Owners[k], name |-> Names[Owners[k]], content |-> Written(Owners[k]), nav |-> Nav(Owners[k])]],
+                                        urls |-> [r \in 1..Len(refs) |-> Target(refs[r])],
+                                        shown |-> [r \in 1..Len(refs) |-> IF refs[r].kind = "sec" THEN Num(refs[r].to) ELSE <<refs[r].to + 1>>],
+                                        nums |-> [i \in 1..N |-> Num(i)],
+                                        allurls |-> [i \in 1..N |-> Url(i)], homes |-> [i \in 1..(N + 1) |-> Names[FileOf(i - 1)]]])>>)
 =============================================================================
